@@ -36,6 +36,8 @@ def _progs(tier, seed):
     progs = dict(programs.basic_programs())
     progs['reads_inputs'] = {'steps': [S(['cont', [], {}], yields=1, fx=[(0, ['inp', 'k'])]), S(['wait', 'w', None], sync=True, fx=[(0, ['inp', 'k'])]),
                                        S(['value', 1], yields=1, fx=[(1, ['inp', 'z'])])]}
+    progs['reads_identity'] = {'steps': [S(['cont', [], {}], yields=1, fx=[(0, ['ident'])]), S(['wait', 'w', None], sync=True, fx=[(0, ['ident'])]),
+                                         S(['value', 1], yields=1, fx=[(1, ['ident'])])]}
     # every step emits into the same nested output namespace (a checkpoint must not see the later emissions)
     progs['nested_outs'] = {'steps': [S(['cont', [], {}], yields=1, fx=[(0, ['out', 'ns.a', 1])]), S(['cont', [], {}], sync=True, fx=[(0, ['out', 'ns.b', [2]])]),
                                       S(['wait', 'w', None], sync=True, fx=[(0, ['out', 'ns.deep.c', 3])]), S(['value', 4], yields=1, fx=[(0, ['out', 'ns.d', 4])])]}
@@ -217,7 +219,7 @@ def run_case(case):
         obs['elif_or_else_body_crash'] = int(_has_elif_else(case['ast']) and r['restores'] > 0)
         ta, tb = (a['ctx'] or {}).get('tr'), (b['ctx'] or {}).get('tr')
     else:
-        ta, tb = [t for t in a['trace'] if t[0] in ('enter', 'inp', 'out')], [t for t in b['trace'] if t[0] in ('enter', 'inp', 'out')]
+        ta, tb = [t for t in a['trace'] if t[0] in ('enter', 'inp', 'out', 'ident')], [t for t in b['trace'] if t[0] in ('enter', 'inp', 'out', 'ident')]
     if ta != tb:
         k = next((i for i, (x, y) in enumerate(zip(ta or [], tb or [])) if x != y), min(len(ta or []), len(tb or [])))
         kind = 'step-repeated' if ta and tb and len(ta) > len(tb) else ('step-skipped' if ta is not None and tb is not None and len(ta) < len(tb) else 'step-differs')
